@@ -26,7 +26,6 @@ package storage
 //@   ensures [deep] (result.Custodian == nil || fresh(result.Custodian)) && (result.Signature == nil || fresh(result.Signature)) &&
 //@       (len(result.Nodes) == 0 || fresh(result.Nodes)) &&
 //@       (forall k int :: {result.Nodes[k]} 0 <= k && k < len(result.Nodes) ==> fresh(result.Nodes[k]) && fresh(result.Nodes[k].Extra))
-//@   hint at "cloned.Nodes[i] = &clonedNode" [extra-copied] len(clonedNode.Extra) == 353 && fresh(clonedNode.Extra)
 //@   -- the loop writes byte blocks allocated after it started only (the new nodes and their extra bytes)
 //@   loop 0 invariant [kept] forall p *crypto.Key :: {*p} loopentry(allocated(p)) ==> *p == loopentry(*p)
 //@   loop 0 invariant [nodes] len(cloned.Nodes) == len(cur.Nodes) && fresh(cloned.Nodes) && loopentry(allocated(cloned.Nodes))
